@@ -2,15 +2,15 @@
 # One-time setup after a fresh restore: regenerate the generated sources and build the harness
 # (release, offline) against /repo's current tree with hooks enabled.
 set -eu
-VERIF=/verif
+VERIF="$(cd "$(dirname "$0")" && pwd)"
+export VERIF_ROOT="$VERIF"
 export CARGO_NET_OFFLINE=true
 export RUSTFLAGS="--cfg parity_scale_codec_verif"
+export CARGO_TARGET_DIR="$VERIF/target/harness"
 mkdir -p "$VERIF/target/logs" "$VERIF/evidence"
 python3 "$VERIF/gen/gen_registry.py" "$VERIF/harness" >/dev/null
 python3 "$VERIF/gen/gen_derive.py" "$VERIF/harness" >/dev/null
-cd "$VERIF/harness"
-cargo build --release --offline -p pscv 2>&1 | tail -3
-
+( cd "$VERIF/harness" && cargo build --release --offline -p pscv 2>&1 | tail -3 )
 # warm the feature-matrix builds (C20) so that the first quick run is not dominated by them
-( cd "$VERIF/harness_digest" && env -u RUSTFLAGS cargo build --release --offline --no-default-features --features "std chain-error bit-vec bytes generic-array max-encoded-len derive" --target-dir "$VERIF/target/digest-default" 2>&1 | tail -1 ) || true
+( cd "$VERIF/harness_digest" && env -u RUSTFLAGS -u CARGO_TARGET_DIR cargo build --release --offline --no-default-features --features "std chain-error bit-vec bytes generic-array max-encoded-len derive" --target-dir "$VERIF/target/digest-default" 2>&1 | tail -1 ) || true
 echo "setup done"
